@@ -69,9 +69,9 @@ func genOp(t *rapid.T) kit.Cmd {
 			case 0:
 				return []string{gen.CaseOf(t, "keepttl")}
 			case 1:
-				return []string{gen.CaseOf(t, "ex"), gen.Pick(t, "ex", "1000", "5000", "100000", "0", "-1", "abc", "9223372036854775807")}
+				return []string{gen.CaseOf(t, "ex"), gen.Pick(t, "ex", "1000", "5000", "100000", "0", "-1", "abc", "9223372036854775807", "9223372036854775", "9223372036", "18446744073709552")}
 			case 2:
-				return []string{gen.CaseOf(t, "px"), gen.Pick(t, "px", "1000000", "5000000", "0", "-5", "x")}
+				return []string{gen.CaseOf(t, "px"), gen.Pick(t, "px", "1000000", "5000000", "0", "-5", "x", "9223372036855000", "9223372036854775", "18446744073709551", "9223372036854775807", "4611686018427387904")}
 			case 3:
 				return []string{gen.CaseOf(t, "exat"), gen.Pick(t, "exat", "4102444800", "4102448400", "0", "-1", "zz")}
 			case 4:
